@@ -16,6 +16,7 @@ anything.
 from __future__ import annotations
 
 import ast
+import copy
 import hashlib
 import json
 from pathlib import Path
@@ -264,3 +265,188 @@ def edit_size(repo, qual: str) -> Optional[int]:
     if any(k.startswith("S") for k in d):
         return 1000   # parameter list changed
     return sum(d.values())
+
+
+# ---------------------------------------------------------------------------
+# Extract-helper refactorings: a function that the validated tree does not have, that is called from exactly one place
+# in a function the validated tree does have, and whose body is straight-line enough, is inlined at that call before
+# any rule runs.  The program analysed is then the one the rules were validated on (plus/minus the real edit), the gate
+# measures the real edit, and a defect inside the extracted code is judged by the rules of the function it came from.
+
+_SIMPLE_ARG = (ast.Name, ast.Attribute, ast.Constant)
+
+
+def _is_simple_arg(e: ast.AST) -> bool:
+    return isinstance(e, _SIMPLE_ARG) and not any(isinstance(x, ast.Call) for x in ast.walk(e))
+
+
+class _Subst(ast.NodeTransformer):
+    def __init__(self, mapping: Dict[str, ast.AST]):
+        self.mapping = mapping
+
+    def visit_Name(self, node: ast.Name):
+        if isinstance(node.ctx, ast.Load) and node.id in self.mapping:
+            return ast.copy_location(copy.deepcopy(self.mapping[node.id]), node)
+        return node
+
+
+def _helper_shape(fn: ast.FunctionDef) -> Optional[str]:
+    """'expr' (body is a single `return E`), 'block' (statements, at most one return, as the last top-level statement), or None."""
+    if fn.decorator_list and not all(ast.unparse(d) in ("staticmethod",) for d in fn.decorator_list):
+        return None
+    if fn.args.vararg or fn.args.kwarg or fn.args.posonlyargs:
+        return None
+    body = [st for st in fn.body if not (isinstance(st, ast.Expr) and isinstance(st.value, ast.Constant) and isinstance(st.value.value, str))]
+    if not body:
+        return None
+    for x in ast.walk(fn):
+        if isinstance(x, (ast.Yield, ast.YieldFrom, ast.Await, ast.Global, ast.Nonlocal, ast.Lambda)) or (isinstance(x, (ast.FunctionDef, ast.AsyncFunctionDef, ast.ClassDef)) and x is not fn):
+            return None
+    rets = [x for x in ast.walk(fn) if isinstance(x, ast.Return)]
+    if len(body) == 1 and isinstance(body[0], ast.Return) and body[0].value is not None:
+        return "expr"
+    if len(rets) == 0 or (len(rets) == 1 and rets[0] is body[-1]):
+        return "block"
+    return None
+
+
+def inline_new_helpers(repo) -> List[str]:
+    ref = shapes()
+    if not ref:
+        return []
+    done: List[str] = []
+    for _round in range(3):
+        progress = False
+        for hq, hfi in sorted(repo.funcs.items()):
+            if hq in ref or hfi.parent is not None or hfi.node.name.startswith("__"):
+                continue
+            kind = _helper_shape(hfi.node)
+            if kind is None:
+                continue
+            hname = hfi.node.name
+            if sum(1 for q in repo.funcs if q.split(".")[-1] == hname) != 1:
+                continue
+            # every mention of the name in the package
+            sites = []
+            for fq, ffi in repo.funcs.items():
+                if ffi is hfi or ffi.parent is not None:
+                    continue
+                for x in ast.walk(ffi.node):
+                    if isinstance(x, ast.Call) and ((isinstance(x.func, ast.Name) and x.func.id == hname) or (isinstance(x.func, ast.Attribute) and x.func.attr == hname)):
+                        sites.append((fq, ffi, x))
+            mentions = sum(1 for m in repo.mods.values() for x in ast.walk(m.tree) if (isinstance(x, ast.Name) and x.id == hname) or (isinstance(x, ast.Attribute) and x.attr == hname))
+            if len(sites) != 1 or mentions != 1:
+                continue
+            fq, ffi, call = sites[0]
+            if fq not in ref:
+                continue
+            params = [a.arg for a in hfi.node.args.args]
+            defaults = dict(zip(params[len(params) - len(hfi.node.args.defaults):], hfi.node.args.defaults)) if hfi.node.args.defaults else {}
+            kwparams = [a.arg for a in hfi.node.args.kwonlyargs]
+            for a, d in zip(hfi.node.args.kwonlyargs, hfi.node.args.kw_defaults):
+                if d is not None:
+                    defaults[a.arg] = d
+            actual: Dict[str, ast.AST] = {}
+            pos = list(call.args)
+            is_method = hfi.cls is not None and not any(ast.unparse(d) == "staticmethod" for d in hfi.node.decorator_list)
+            if is_method:
+                if not (isinstance(call.func, ast.Attribute)) or not params:
+                    continue
+                actual[params[0]] = call.func.value
+                plist = params[1:]
+            else:
+                plist = params
+            if any(isinstance(a, ast.Starred) for a in pos) or any(k.arg is None for k in call.keywords) or len(pos) > len(plist):
+                continue
+            for p, a in zip(plist, pos):
+                actual[p] = a
+            for k in call.keywords:
+                actual[k.arg] = k.value
+            for p in plist + kwparams:
+                if p not in actual:
+                    if p in defaults:
+                        actual[p] = defaults[p]
+            if set(actual) != set(params + kwparams):
+                continue
+            stored = {t.id for x in ast.walk(hfi.node) for t in ast.walk(x) if isinstance(t, ast.Name) and isinstance(t.ctx, ast.Store)}
+            uses = {p: sum(1 for x in ast.walk(hfi.node) if isinstance(x, ast.Name) and x.id == p and isinstance(x.ctx, ast.Load)) for p in actual}
+            pre: List[ast.stmt] = []
+            mapping: Dict[str, ast.AST] = {}
+            for p, a in actual.items():
+                if p in stored or (not _is_simple_arg(a) and uses.get(p, 0) > 1):
+                    pre.append(ast.copy_location(ast.Assign(targets=[ast.Name(id=p, ctx=ast.Store())], value=copy.deepcopy(a), lineno=call.lineno), call))
+                else:
+                    mapping[p] = a
+            body = [copy.deepcopy(st) for st in hfi.node.body if not (isinstance(st, ast.Expr) and isinstance(st.value, ast.Constant) and isinstance(st.value.value, str))]
+            body = [_Subst(mapping).visit(st) for st in body]
+            # inlined code lives at the call: rules that order things by line number must see it there, and reports point at the call site
+            for st in body + pre:
+                for x in ast.walk(st):
+                    if hasattr(x, "lineno"):
+                        x.lineno = call.lineno
+                        x.end_lineno = getattr(call, "end_lineno", call.lineno)
+                        x.col_offset = getattr(call, "col_offset", 0)
+                        x.end_col_offset = getattr(call, "end_col_offset", 0)
+            ok = False
+            if kind == "expr":
+                expr = body[0].value
+                # replace the call node inside its statement
+                class _Rep(ast.NodeTransformer):
+                    def visit_Call(self, node):
+                        self.generic_visit(node)
+                        return ast.copy_location(expr, node) if node is call else node
+                if pre:
+                    continue   # an expression helper whose arguments need temporaries: leave it alone
+                _Rep().visit(ffi.node)
+                ok = True
+            else:
+                # the call must be the whole value of a statement of F
+                for owner in ast.walk(ffi.node):
+                    for fld in ("body", "orelse", "finalbody"):
+                        blk = getattr(owner, fld, None)
+                        if not isinstance(blk, list):
+                            continue
+                        for i, st in enumerate(blk):
+                            tail = None
+                            if isinstance(st, ast.Expr) and st.value is call:
+                                tail = []
+                            elif isinstance(st, (ast.Assign, ast.AnnAssign, ast.Return)) and getattr(st, "value", None) is call:
+                                tail = st
+                            else:
+                                continue
+                            new = pre + body
+                            if new and isinstance(new[-1], ast.Return):
+                                ret = new.pop()
+                                if tail == []:
+                                    if ret.value is not None and not _is_simple_arg(ret.value):
+                                        new.append(ast.copy_location(ast.Expr(value=ret.value), st))
+                                else:
+                                    st2 = copy.copy(tail)
+                                    st2.value = ret.value if ret.value is not None else ast.Constant(value=None)
+                                    new.append(st2)
+                            elif tail != []:
+                                st2 = copy.copy(tail)
+                                st2.value = ast.Constant(value=None)
+                                new.append(st2)
+                            blk[i:i + 1] = new
+                            ok = True
+                            break
+                        if ok:
+                            break
+                    if ok:
+                        break
+            if not ok:
+                continue
+            ast.fix_missing_locations(ffi.node)
+            # the helper is gone from the analysed program
+            del repo.funcs[hq]
+            if hfi.cls is not None:
+                hfi.cls.methods.pop(hname, None)
+            else:
+                hfi.mod.functions.pop(hname, None)
+            done.append(f"{hq} -> {fq}")
+            progress = True
+            break
+        if not progress:
+            break
+    return done
